@@ -489,6 +489,9 @@ func c03Scenario(name string) func() explore.SchedOutcome {
 		if name == "SC6s" { // the same scenario with fewer pending replies, explored one deviation deeper
 			kind, flood = "SC6", 30
 		}
+		if name == "SC6r" { // the same scenario, the backlog drained under the least favourable schedule
+			kind, flood = "SC6", 100
+		}
 		switch kind {
 		case "SC1": // account changes by an administrator while a connection is between registration and authentication
 			adm, _ := wd.Connect("10.0.0.9:1009", "admin", "secret", "adm")
@@ -603,6 +606,20 @@ func c03Scenario(name string) func() explore.SchedOutcome {
 			for _, h := range hostiles {
 				h.Stalled = false
 			}
+			if name == "SC6r" {
+				// delivering one pending reply must not cost more the more replies are pending (a burst of n messages
+				// would otherwise keep the server busy for n*n steps while everybody waits).  Scheduling steps plus the
+				// goroutines readied by condition-variable broadcasts, under the schedule that runs the sender queued
+				// last first, are a deterministic measure of that work.
+				vrt.ReverseDefault(true)
+				before := vrt.S.Steps + vrt.CondWakeups
+				vrt.Settle(40 * time.Second)
+				used := vrt.S.Steps + vrt.CondWakeups - before
+				vrt.ReverseDefault(false)
+				if used > 20*flood {
+					fail("delivery-cost-grows-with-the-backlog", fmt.Sprintf("draining %d pending replies took %d scheduling steps and goroutine wake-ups (%d per reply)", flood, used, used/flood))
+				}
+			}
 		} else if wdg := vrt.Wedged(); len(wdg) > 0 {
 			fail("wedged", strings.Join(wdg, ", "))
 		}
@@ -629,7 +646,7 @@ func c03Scenario(name string) func() explore.SchedOutcome {
 	}
 }
 
-var c03Scenarios = []string{"SC1", "SC2", "SC3", "SC4", "SC5", "SC6", "SC6s", "SC7", "SC8"}
+var c03Scenarios = []string{"SC1", "SC2", "SC3", "SC4", "SC5", "SC6", "SC6s", "SC6r", "SC7", "SC8"}
 
 // c03Flood is the number of requests the deaf client of SC6 sends (each leaves one reply pending for it).
 var c03Flood = 300
@@ -687,7 +704,7 @@ func runC03(w *explore.Worker) {
 		switch sc {
 		case "SC7", "SC8":
 			b = 0 // a sequence, not a race
-		case "SC6":
+		case "SC6", "SC6r":
 			b = 0 // 300 pending replies: thousands of steps per execution, default schedule and hold-backs only
 		case "SC6s":
 			b = bound - 1
